@@ -16,9 +16,11 @@
  *                       Precondition from the only caller ext2fs_copy_generic_bmap (gen_bitmap64.c): dest->start,
  *                       dest->end, dest->real_end were copied from src before the call.
  * malloc may fail in the verifier (CBMC 6 default), so the out-of-memory paths are exercised.
- * new_bmap / copy_bmap: libc memset / memcpy are the pointwise models of specs/c16_ba_memops.h (the built-in array
- * models need > 100 s / time out when both the length and the size of the freshly allocated object are symbolic);
- * clear_bmap and alloc_private_data use CBMC's built-in models.
+ * Modular: new_bmap and copy_bmap REPLACE ba_alloc_private_data by its contract (enforced by the unit of that name).
+ * The contract hands out the private data and the array as fresh, typed objects (__CPROVER_is_fresh in the
+ * postcondition); with the real body inlined the array pointer travels through memcpy(ptr, &pp, sizeof(pp)) of
+ * ext2fs_get_mem into an untyped malloc(8) block and the verifier's points-to analysis loses it (105 s / time-out).
+ * libc memset / memcpy / malloc / free are CBMC's built-in models.
  */
 /* VERIF-UNIT
 {
@@ -44,11 +46,12 @@
  "tier": "quick",
  "harness": "h_ba_new",
  "enforce": ["ba_new_bmap"],
+ "replace": ["ba_alloc_private_data"],
  "sources": ["lib/ext2fs/bitops.c"],
  "defines": ["BA_MAX_BITS=4096"],
- "functions": ["lib/ext2fs/blkmap64_ba.c:ba_new_bmap", "lib/ext2fs/blkmap64_ba.c:ba_alloc_private_data"],
+ "functions": ["lib/ext2fs/blkmap64_ba.c:ba_new_bmap"],
  "assumes": ["real_end - start capped at 4096 bits (object-size cap; loop-free code); geometry otherwise symbolic with start <= end <= real_end",
-             "libc malloc/free as modelled by CBMC (malloc may return NULL); memset/memcpy replaced by their C11 semantics stated for one ghost byte (specs/c16_ba_memops.h): destination range havocked, the ghost byte gets the fill value / the source byte, 8-byte copies (pointer moves in ext2fs_get_mem) exact"],
+             "ba_alloc_private_data replaced by its contract (proved by unit bitmap_ba/ba_alloc_private_data); libc memset as modelled by CBMC"],
  "native": false
 }
 */
@@ -75,22 +78,16 @@
  "tier": "quick",
  "harness": "h_ba_copy",
  "enforce": ["ba_copy_bmap"],
+ "replace": ["ba_alloc_private_data"],
  "sources": ["lib/ext2fs/bitops.c"],
  "defines": ["BA_MAX_BITS=4096"],
- "functions": ["lib/ext2fs/blkmap64_ba.c:ba_copy_bmap", "lib/ext2fs/blkmap64_ba.c:ba_alloc_private_data"],
+ "functions": ["lib/ext2fs/blkmap64_ba.c:ba_copy_bmap"],
  "assumes": ["bit array capped at 4096 bits (object-size cap; loop-free code); geometry, contents and the 8 byte-misalignments of the source otherwise symbolic",
              "dest->start/end/real_end equal the source's (ext2fs_copy_generic_bmap copies them before dispatching)",
-             "libc malloc/free as modelled by CBMC (malloc may return NULL); memcpy replaced by its C11 semantics stated for one ghost byte (specs/c16_ba_memops.h): destination range havocked, the ghost byte gets the source byte, regions checked readable/writable/non-overlapping, 8-byte copies (pointer moves in ext2fs_get_mem) exact"],
+             "ba_alloc_private_data replaced by its contract (proved by unit bitmap_ba/ba_alloc_private_data); libc memcpy as modelled by CBMC"],
  "native": false
 }
 */
-#include "verif.h"
-/* ghost: object offset of the destination byte that holds the ghost bit; every array the functions under proof
- * write is freshly allocated (offset 0), so this is verif_k >> 3 */
-unsigned long long verif_g3;
-#if !defined(VERIF_UNIT_ba_clear_bmap) && !defined(VERIF_UNIT_ba_alloc_private_data)
-#include "c16_ba_memops.h"
-#endif
 #include "ba_env.h"
 
 #define NBYTES_OF(bm) ((((bm)->real_end - (bm)->start) / 8) + 1)
@@ -108,13 +105,14 @@ static errcode_t ba_alloc_private_data(ext2fs_generic_bitmap_64 bitmap)
 	REQUIRES(bitmap->start <= bitmap->real_end && verif_k <= bitmap->real_end - bitmap->start)
 	REQUIRES(verif_old_private == bitmap->private)
 	ENSURES(RET == 0 || RET == EXT2_ET_NO_MEMORY)
-	ENSURES(RET != 0 || (bitmap->private != 0 && HAS_BYTE_FOR(bitmap, verif_k)))
+	ENSURES(RET != 0 || FRESH(bitmap->private, sizeof(struct ext2fs_ba_private_struct)))
+	ENSURES(RET != 0 || FRESH(ARR(bitmap), NBYTES_OF(bitmap)))
+	ENSURES(RET != 0 || HAS_BYTE_FOR(bitmap, verif_k))
 	ENSURES(RET == 0 || bitmap->private == verif_old_private)
 	ASSIGNS(bitmap->private);
 
 static errcode_t ba_new_bmap(ext2_filsys fs, ext2fs_generic_bitmap_64 bitmap)
 	REQUIRES(bitmap->start <= bitmap->real_end && verif_k <= bitmap->real_end - bitmap->start)
-	REQUIRES(verif_g3 == verif_k >> 3)
 	REQUIRES(verif_old_private == bitmap->private)
 	ENSURES(RET == 0 || RET == EXT2_ET_NO_MEMORY)
 	ENSURES(RET != 0 || (bitmap->private != 0 && HAS_BYTE_FOR(bitmap, verif_k) && BIT(ARR(bitmap), verif_k) == 0))
@@ -129,7 +127,6 @@ static void ba_clear_bmap(ext2fs_generic_bitmap_64 bitmap)
 static errcode_t ba_copy_bmap(ext2fs_generic_bitmap_64 src, ext2fs_generic_bitmap_64 dest)
 	REQUIRES(src->start <= src->real_end && verif_k <= src->real_end - src->start)
 	REQUIRES(dest->start == src->start && dest->end == src->end && dest->real_end == src->real_end)
-	REQUIRES(verif_g3 == verif_k >> 3)
 	REQUIRES(verif_old_bit == BIT(ARR(src), verif_k))
 	REQUIRES(verif_old_private == dest->private)
 	ENSURES(RET == 0 || RET == EXT2_ET_NO_MEMORY)
@@ -158,7 +155,6 @@ static void load_geometry(void)
 	ASSUME(IN.real_end - IN.start < BA_MAX_BITS);
 	verif_k = IN.k;
 	ASSUME(verif_k <= IN.real_end - IN.start);
-	verif_g3 = verif_k >> 3;
 }
 #define GEOMETRY_KEPT(bm) ((bm).start == IN.start && (bm).end == IN.end && (bm).real_end == IN.real_end)
 
@@ -213,7 +209,6 @@ void h_ba_copy(void)
 	build_bitmap();
 	build_header(&NEWBM);
 	verif_old_private = 0;
-	verif_g3 = verif_k >> 3;
 	errcode_t r = ba_copy_bmap(&BM, &NEWBM);
 	CHECK(r == 0 || r == EXT2_ET_NO_MEMORY, "copy: returns 0 or EXT2_ET_NO_MEMORY");
 	if (r == 0) {
